@@ -4,6 +4,7 @@ package zz_simnode
 
 import (
 	"fmt"
+	"runtime/debug"
 
 	"MODULEPATH/utils"
 	rt "MODULEPATH/zz_simrt"
@@ -41,6 +42,7 @@ func runBitHistory(c *Call, slot *CallResult) {
 	var otherModel []bool
 	histID := c.I1
 	lastStream := 0
+	panicked := false
 
 	fail := func(op int, format string, a ...any) {
 		slot.Class = "diverged"
@@ -316,8 +318,22 @@ func runBitHistory(c *Call, slot *CallResult) {
 			// the same list, used by another goroutine strictly after this one (hand-over through a
 			// channel) and handed back: nothing may depend on WHICH goroutine touches the list
 			done := make(chan bool)
-			go func() { done <- step(i) }()
+			go func() {
+				defer func() {
+					if r := recover(); r != nil {
+						slot.Class = "panic"
+						slot.Panic = fmt.Sprint(r)
+						slot.Stack = string(debug.Stack())
+						panicked = true
+						done <- false
+					}
+				}()
+				done <- step(i)
+			}()
 			if !<-done {
+				if panicked {
+					return
+				}
 				return
 			}
 			stats["handoffs"]++
